@@ -11,11 +11,16 @@ import numpy as np
 
 
 class Tracer:
-    def __init__(self):
+    def __init__(self, sample_seed=12345, sample=None):
+        """Concolic: every variable carries a generic sample value (seeded, or given in `sample`); a comparison
+        is decided by evaluating both sides at the sample point and recorded as a path condition."""
         self.nodes = []          # (op, args)   args: tuple of node ids / payload
         self.index = {}
+        self.val = []            # float value of every node at the sample point
         self.pc = []             # list of (relation, lhs id, rhs id, truth answered)
-        self.answers = {}        # relation -> default truth
+        self.sample = dict(sample or {})
+        import random
+        self._rnd = random.Random(sample_seed)
 
     def mk(self, op, *args):
         key = (op,) + args
@@ -24,7 +29,30 @@ class Tracer:
             i = len(self.nodes)
             self.nodes.append(key)
             self.index[key] = i
+            self.val.append(self._value(key))
         return Sym(self, i)
+
+    def _value(self, key):
+        k = key[0]
+        if k == "var":
+            if key[1] not in self.sample:
+                self.sample[key[1]] = self._rnd.uniform(-1.0, 1.0)
+            return float(self.sample[key[1]])
+        if k == "const":
+            return float(key[1])
+        a = [self.val[x] for x in key[1:]]
+        try:
+            if k == "neg": return -a[0]
+            if k == "abs": return abs(a[0])
+            if k == "sqrt": return math.sqrt(a[0]) if a[0] >= 0 else float("nan")
+            if k == "exp": return math.exp(a[0])
+            if k == "add": return a[0] + a[1]
+            if k == "sub": return a[0] - a[1]
+            if k == "mul": return a[0] * a[1]
+            if k == "div": return a[0] / a[1] if a[1] != 0 else float("nan")
+        except OverflowError:
+            return float("nan")
+        raise ValueError(k)
 
     def var(self, name):
         return self.mk("var", name)
@@ -108,7 +136,8 @@ class Sym:
     # -- comparisons become path conditions
     def _cmp(self, rel, other):
         o = self.tr.lift(other)
-        ans = self.tr.answers.get(rel, False)
+        a, b = self.tr.val[self.id], self.tr.val[o.id]
+        ans = bool({"lt": a < b, "gt": a > b, "le": a <= b, "ge": a >= b, "eq": a == b}[rel])
         self.tr.pc.append((rel, self.id, o.id, ans))
         return ans
 
